@@ -331,9 +331,9 @@ def cll(xss):
 # ------------------------------------------------------------------ checksums (= Corr/C20.v hmix/hlist/hobs)
 def hobs(h, obs):
     for l in obs:
-        h = (h * 1000003 + len(l) + 7) % HMOD
+        h = (h * 1000003 + len(l) + 7) & HMOD
         for x in l:
-            h = (h * 1000003 + x + 7) % HMOD
+            h = (h * 1000003 + x + 7) & HMOD
     return h
 
 
@@ -381,15 +381,18 @@ def exh_files(nbits):
 BLKS = [NOBLK] + list(range(-3, 17))
 
 
-def exh_worker(files):
+def exh_worker(job):
     """per file: checksums for the model tie and the readers-agree oracle (block lengths >= 0 and no block).
-    Returns (list of (er, ed), list of disagreement descriptions, #runs)."""
+    Returns (list of (blks, er, ed), list of disagreement descriptions, #runs)."""
+    files, start, stride = job
     res, bad, runs = [], [], 0
-    for f in files:
-        er = [r_family(f, b) for b in BLKS]
-        ed = [d_family(f, b) for b in BLKS]
-        res.append((er, ed))
-        runs += len(BLKS) * (len(R_PRIMS) + len(D_PRIMS_B))
+    for i, f in enumerate(files):
+        # quick tier: the model tie uses every third block length per file (rotating); the oracle below uses all
+        blks = [b for b in BLKS if b == NOBLK or (b + start + i) % stride == 0]
+        er = [r_family(f, b) for b in blks]
+        ed = [d_family(f, b) for b in blks]
+        res.append((blks, er, ed))
+        runs += len(blks) * (len(R_PRIMS) + len(D_PRIMS_B))
         # oracle: both readers agree (values, tell, EOF class) on every primitive
         for p in AGREE_U:
             for prog in ([p, ("uint",), ("align",), ("bit",)], [p, ("sint",), ("nbits", 2)]):
@@ -611,7 +614,7 @@ def run(ctx):
     MODS = ["Base.PyZ", "Model.BitIO", "Corr.C20"]
     ctx.extra["rule"] = (
         "exhaustive: every byte string of 0..ceil(N/8) bytes with the first N bits enumerated (N=%d) x 21 block lengths "
-        "(none, -3..16) x every primitive of both readers, observations (value, tell, bits_remaining, exception) checksummed "
+        "(none, -3..16; quick tier: model tie on every third length per file, rotating, oracle on all) x every primitive of both readers, observations (value, tell, bits_remaining, exception) checksummed "
         "and compared with the model; random op sequences for writer / BitstreamReader / decoder reader continuing after "
         "exceptions; structured read programs; integers up to 2^300.  A case is non-trivial when at least one real bit is "
         "read or written (distinct by input)." % ctx.pick(10, 14))
@@ -634,7 +637,7 @@ def run(ctx):
     nbits = ctx.pick(10, 14)
     files = exh_files(nbits)
     chunk = max(1, len(files) // 64)
-    chunks = [files[i:i + chunk] for i in range(0, len(files), chunk)]
+    chunks = [(files[i:i + chunk], i, ctx.pick(3, 1)) for i in range(0, len(files), chunk)]
     results, disagreements = [], []
     with concurrent.futures.ProcessPoolExecutor(max_workers=int(os.environ.get("VERIF_JOBS", "16"))) as ex:
         for res, bad, runs in ex.map(exh_worker, chunks):
@@ -648,7 +651,7 @@ def run(ctx):
         ctx.violation("readers-disagree", {"file": f, "prog": prog},
                       "BitstreamReader and the decoder's reader differ on a structured read program (block lengths >= 0)",
                       observed={"bitstream_reader": a, "decoder_reader": b}, expected="identical values, tell() and EOF class")
-    cases = ["(%s, %s, (%s, %s))" % (clist(f), clist(BLKS), clist(er), clist(ed)) for f, (er, ed) in zip(files, results)]
+    cases = ["(%s, %s, (%s, %s))" % (clist(f), clist(blks), clist(er), clist(ed)) for f, (blks, er, ed) in zip(files, results)]
     bad = ctx.coq_check_cases("exh", MODS, "exh_check", cases, shard=ctx.pick(150, 300), timeout=900)
     corr_fail("exhaustive readers", bad, lambda i: "file %r" % (files[i],))
     ctx.sample({"exhaustive_file": files[len(files) // 3], "block_lengths": BLKS})
